@@ -19,7 +19,7 @@ def describe(tier):
     q = tier == 'quick'
     return dict(bounds=dict(roots='ConstBitStream and BitStream x all contents of length <= %d x every pos; byte-structured and 17-bit '
                                   'contents at pos 0,3,8,L-1,L; constructor pos= incl. negative' % (4 if q else 5),
-                            plan='full menu depth %s; reduced menu with <= 1 deviation to depth %d' % ('1-2' if q else '1-2 (3 reduced)', 3 if q else 5),
+                            plan='full menu depth %s; reduced menu with <= 1 deviation to depth %d' % ('1-2' if q else '1-2 (3 reduced); 5-bit roots: full 1-2, then <= 1 deviation to depth 4', 3 if q else 5),
                             content_cap_bits=CAP,
                             tokens='u1 u3 i2 hex4 oct3 bin2 bool bits2 bytes1 pad2 float16 bfloat p4binary8 e2m1mxfp ue se uie sie; '
                                    'length-less bin hex oct bits bytes u i pad; Dtype objects; ints -1,0,1,3,rem,rem+1'),
@@ -55,7 +55,7 @@ def shards(tier, seed):
 def canon(v, world=None):
     bs = core.import_bitstring()
     if isinstance(v, bs.Bits):
-        return ('bits', v.bin, getattr(v, '_pos', 0))
+        return ('bits', v.bin, getattr(v, 'pos', 0))
     if isinstance(v, float):
         return S.fl(v)
     if isinstance(v, (bytes, bytearray)):
@@ -118,7 +118,7 @@ class System:
 
 
 CANON_SRC = '''def canon(v):
-    if isinstance(v, bitstring.Bits): return ('bits', v.bin, getattr(v, '_pos', 0))
+    if isinstance(v, bitstring.Bits): return ('bits', v.bin, getattr(v, 'pos', 0))
     if isinstance(v, float): return ('f', 'nan' if v != v else v.hex())
     if isinstance(v, (bytes, bytearray)): return ('bytes', bytes(v).hex())
     if isinstance(v, (list, tuple)): return type(v)(canon(x) for x in v) if not (len(v) == 3 and v[0] == 'bits') and not (len(v) == 2 and v[0] in ('f', 'bytes')) else tuple(v)
@@ -419,6 +419,8 @@ def run_shard(shard, acc):
             plan = [('full', None), ('reduced', 1)]
     else:
         plan = [('full', None), ('full', None), ('reduced', None), ('reduced', 1), ('reduced', 1)]
+        if len(shard['bits']) == 5:
+            plan = [('full', None), ('full', None), ('reduced', 1), ('reduced', 1)]      # 192 of the 320 roots per class: depth 4 keeps the tier under ~25 min
         if not small:
             plan = [('full', None), ('reduced', None), ('reduced', 1)]
     try:
